@@ -194,6 +194,16 @@ pub fn spaces(tier: Tier) -> Vec<Space<'static>> {
             acc.vio("MODEL-SELFTEST:documented-example-not-in-core-grammar", || json!({"input": golden[i as usize]}));
         }
     }));
+    // numbers around every width boundary as indices and literals
+    {
+        let nums = crate::checks::c20::extreme_number_texts();
+        sp.push(Space::new("numbers around width boundaries as indices and literals", nums.len() as u64, move |i, acc| {
+            let n = &nums[i as usize];
+            for t in [format!("$[{}]", n), format!("$[last - {}]", n), format!("$[last + {}]", n), format!("$[{} to last]", n), format!("$[0 to {}]", n), format!("$[*]?(@ == {})", n), format!("$.a > {}", n), format!("$[*]?(@.a < {}.5)", n), format!("$[*]?(@ >= {}e2)", n)] {
+                judge_raw(t.as_bytes(), acc);
+            }
+        }));
+    }
     // every Unicode scalar value as a member name: after a dot, inside a name, after a colon, quoted
     sp.push(Space::new("every scalar value in a member name (dot, colon, bracket-quoted)", crate::univ::N_CHARS, |i, acc| {
         let c = crate::univ::nth_char(i);
